@@ -433,3 +433,33 @@ func (vn *VNet) Submit(n *NNode, id string, payload []byte) {
 	n.node.VAddTransaction(payload)
 	vn.w.Emit(n.num, "Submit", map[string]interface{}{"tx": id}, map[string]interface{}{"pool": len(n.core.TransactionPool()), "state": n.State()})
 }
+
+// apiRead: the node's read-only API (what the HTTP service serves): the validator
+// set of past, current and future rounds, and blocks by index.  Reading must not
+// change anything; what is read must be what the node's tables and delivered
+// blocks say.
+func (vn *VNet) apiRead(n *NNode) {
+	w := vn.w
+	lr := n.store.LastRound()
+	sets := []interface{}{}
+	for r := lr - 3; r <= lr+14; r++ {
+		if r < 0 {
+			continue
+		}
+		ps, err := n.node.GetValidatorSet(r)
+		if err != nil {
+			continue
+		}
+		sets = append(sets, map[string]interface{}{"r": r, "peers": w.PeerNums(ps)})
+	}
+	blocks := []interface{}{}
+	last := n.node.GetLastBlockIndex()
+	for q := 0; q < 3 && last >= 0; q++ {
+		i := w.rng.Intn(last + 1)
+		if b, err := n.node.GetBlock(i); err == nil {
+			blocks = append(blocks, map[string]interface{}{"idx": i, "dig": bodyDigest(b)})
+		}
+	}
+	w.Emit(n.num, "ApiRead", map[string]interface{}{"last_round": lr},
+		map[string]interface{}{"sets": sets, "ps": n.psObs(), "blocks": blocks})
+}
